@@ -195,5 +195,8 @@ fn main() {
     quat_checks!(rep, DQuat, f64, DVec3, EPS64, [(DVec3, mul_vec3)]);
     rep.sample(json!({"space": "Quat/exact-int", "a": [1, -2, 0, 2], "b": [-1, 1, 2, -2], "oracle": "integer Hamilton product"}));
     rep.sample(json!({"space": "Quat/rotation laws", "q": "icosahedral group element", "p": "rotation by pi-1e-4 about (1,2,-2)/3", "v": [3.5e7, -1.25e-4, 2.0]}));
+    // every operator trait impl of the tree (inventory from the rustdoc JSON): reference, assign and
+    // scalar forms agree with the by-value form decided above
+    harness::opforms::run(&mut rep, "quat", harness::opforms::OPFORMS_QUAT);
     std::process::exit(rep.finish());
 }
